@@ -52,6 +52,9 @@ def run(ctx):
     chk.rule('N3', 'pointer/flag typestate of the owning fields: the flag agrees with the stored value on every path, '
                    'the destructor frees exactly when the flag is set and then clears it', floor=10)
     chk.rule('N4', 'no growth: an owning field is never overwritten while it may still hold a heap value', floor=5)
+    chk.rule('N5', 'loading and releasing the configuration keeps no state outside the record: nothing they reach writes '
+                   'static storage (a counter, a cache, a "seen before" flag would be carried from one call into the next)',
+             floor=2)
     chk.explanation = (
         'Histories are quantified away by an inductive argument over one call: if every field that a call can change '
         'is back at its default when the call ends (N2) and the string ownership protocol is respected on every path '
@@ -93,6 +96,28 @@ def run(ctx):
             chk.ob('N1', 'no-parse-once-caching', not cached, cached[0].where() if cached else CT.where(), CT.name,
                    'the constructor branches on %s: a file parsed by an earlier call would not be re-read' % (
                        render(cached[0]) if cached else ''))
+        # ---- N5 ------------------------------------------------------------------------------
+        from engine.statics import static_accesses
+        from rules.C09 import writes_param_factory
+        wp = writes_param_factory(prog)
+        for rootname in ('snoopy_configuration_ctor', 'snoopy_configuration_dtor'):
+            R = prog.require_func(rootname)
+            reach5 = cg.reachable([R])
+            w = []
+            for key, (g, _, _) in sorted(reach5.items(), key=lambda kv: str(kv[0])):
+                if g.name.startswith('snoopy_tsrm_') or g.name.startswith('snoopy_util_list_'):
+                    continue        # the locked per-thread repository that holds the record itself (C09)
+                for a in static_accesses(g, writes_param=wp):
+                    if a.node.k == 'CallExpr' and (a.node.get('callee') or '').startswith('pthread_'):
+                        continue
+                    if variant is facts.TS_OFF and a.var in ('snoopy_configuration_data',):
+                        continue    # the record itself in the build without threads: N2 decides that it is reset
+                    w.append((g, a))
+            chk.ob('N5', 'no-state-outside-the-record[%s]' % rootname, not w, w[0][1].node.where() if w else R.where(), R.name,
+                   '%s (reached from %s) writes the static object %s (%s): its value survives the call, so what a later call '
+                   'does with its configuration depends on the configurations seen before' % (
+                       w[0][0].name if w else '', rootname, w[0][1].var if w else '', w[0][1].how if w else ''),
+                   how='%d reachable functions write no static object' % len(reach5))
         # ---- N2 ------------------------------------------------------------------------------
         rec = prog.record(CFG_RECORD)
         if rec is None:
